@@ -46,7 +46,7 @@ func c15Try(f func()) (panicked bool, val interface{}, stack string) {
 
 // ---- log capture (both sides report dropped datagrams only through the standard logger) ---------------------------------
 
-var c15Markers = []string{"send: ", "dnsRespToUDPResp err", "resp WireFormat", "RemoveFormat err", "craftResponse err", "NXDOMAIN: base32",
+var c15Markers = []string{"send: ", "dnsRespToUDPResp err", "AddFormat err", "resp WireFormat", "RemoveFormat err", "craftResponse err", "NXDOMAIN: base32",
 	"MessageFromWireFormat: ", "cannot parse DNS query"}
 
 type c15LogSink struct {
@@ -640,7 +640,7 @@ func c15Stuck(rec *kit.Rec, calls []*c15Call, finishedWithCallback int, marks c1
 	}
 	x := calls[0].s.tap.since(tmarks)
 	sendDrops := c15Logs.since(marks, "send: ")
-	respDrops := c15Logs.since(marks, "dnsRespToUDPResp err")
+	respDrops := c15Logs.since(marks, "dnsRespToUDPResp err", "AddFormat err")
 	for _, c := range calls {
 		n := c.callbackCalls()
 		d := map[string]interface{}{"case": c.desc, "waited": waited.Round(time.Millisecond).String(), "callback_invocations_for_this_payload": n,
@@ -648,7 +648,7 @@ func c15Stuck(rec *kit.Rec, calls []*c15Call, finishedWithCallback int, marks c1
 			"goroutines_parked_in_RequestAndRecv": parked, "parked_state_stable": stable,
 			"datagrams_received_by_responder_since_start": x.reqs, "answers_sent_by_responder_since_start": x.answers,
 			"requester_name_encoder_refusals_logged_since_start": sendDrops, "responder_answer_encoder_refusals_logged_since_start": respDrops,
-			"requester_log": c15Logs.last("send: ", 3), "responder_log": append(c15Logs.last("dnsRespToUDPResp err", 2), c15Logs.last("RemoveFormat err", 2)...)}
+			"requester_log": c15Logs.last("send: ", 3), "responder_log": append(append(c15Logs.last("dnsRespToUDPResp err", 2), c15Logs.last("AddFormat err", 2)...), c15Logs.last("RemoveFormat err", 2)...)}
 		switch {
 		case !stable:
 			rec.Inconclusive("call still running after the watchdog but no stable parked state", d)
@@ -660,7 +660,7 @@ func c15Stuck(rec *kit.Rec, calls []*c15Call, finishedWithCallback int, marks c1
 				"the requester encoded and sent the request without an error but the responder could not decode it (its callback never ran); RequestAndRecv waits forever", d)
 		case n > 0 && x.answers <= finishedWithCallback && respDrops >= withCallback:
 			rec.Violation("exchange:response-beyond-an-rr:never-sent-and-RequestAndRecv-blocks-forever",
-				"the callback's return value does not fit a DNS resource record; the responder only logs its encoder's refusal and sends nothing, RequestAndRecv waits forever", d)
+				"the callback's return value does not fit a DNS resource record (or its length framing); the responder only logs its encoder's refusal and sends nothing, RequestAndRecv waits forever", d)
 		case n > 0 && x.answersWithData >= withCallback+finishedWithCallback:
 			rec.Violation("exchange:"+c.reqClass()+":requester-drops-response-encoded-and-sent-without-error",
 				"the responder sent an answer carrying the callback's value but the requester never delivered it; RequestAndRecv waits forever", d)
